@@ -369,6 +369,18 @@ Proof.
     apply sub_mod_0; auto.
 Qed.
 
+(* with fixes/C07-final-alignment-truthful.patch the guard of the alignment theorem always holds *)
+Lemma align_fix_guard : fi_align_fix f = true -> fo_has_da o = true \/ sal = cc_natural cc.
+Proof.
+  intros Hfix. change (fo_has_da o) with (fin_has_da f). unfold fin_has_da, sal, final_alignment. cbv zeta. rewrite Hfix. cbn [andb]. fold cc.
+  destruct (Z.ltb_spec (requested_alignment f) (min_dynamic_alignment (cc_natural cc))) as [L|L]; [right; reflexivity|].
+  left. apply Z.leb_le. exact L.
+Qed.
+
+Lemma x86_sp_body_aligned_fixed sp0 :
+  fi_align_fix f = true -> (sp0 + ws) mod cc_natural cc = 0 -> uses_stack o -> x86_sp_body sp0 mod sal = 0.
+Proof. intros Hfix. apply x86_sp_body_aligned. apply align_fix_guard; auto. Qed.
+
 (* ------------------------------------------------------------------ phase C and the whole prolog *)
 Lemma vecmov_x : x86_xmov (x86_vec_mov f o) = Some (1, 16).
 Proof. unfold x86_vec_mov. destruct (fo_aligned_vec_sr o); destruct (fi_avx f || fi_avx512 f); reflexivity. Qed.
